@@ -323,6 +323,13 @@ pub fn spec() -> PropSpec {
         min_counts: &[("states", 256)],
       },
       Check {
+        name: "stateright-crosscheck",
+        rule: "second engine: stateright 0.31 BFS over the same real transition function and invariant (violations latched into the state, `always` property); its verdict must agree and its state counts must be 2^n unique / n*2^(n-1)+1 generated (engine disagreement = machinery error)",
+        gen: |tier| if tier.thorough() { vec![json!({"domain": 4}), json!({"domain": 7}), json!({"domain": 0})] } else { vec![json!({"domain": 4})] },
+        run: super::sr::run_c10,
+        min_counts: &[("engine_agreements", 1)],
+      },
+      Check {
         name: "complete-sequences",
         rule: "8 fixed adversarial complete sequences (ascending, descending, bit-reversed, Gray, sibling-first both ways, subtree-last, stride-37): invariant after every one of the 256 punctures; the emptied key refuses everything; thorough adds seeded random permutations (sampled, supplementary)",
         gen: |tier| {
